@@ -370,6 +370,8 @@ type vFaultPlan struct {
 	kind   int
 	counts map[string]int
 	fired  int
+	rec         *vRecorder
+	termsAtFire int // terminals already delivered downstream when the fault fired
 }
 
 var vFault *vFaultPlan
@@ -383,6 +385,9 @@ func vFP(pos string) {
 	f.counts[pos] = n + 1
 	if f.pos == pos && f.idx == n {
 		f.fired++
+		if f.rec != nil {
+			f.termsAtFire = f.rec.terminals()
+		}
 		if f.kind == 0 {
 			panic(vErrB)
 		}
